@@ -68,7 +68,7 @@ def int_witness_failures(ex):
     """CONCRETE witness runs (not solver evidence): the symbolic runs carry no numpy dtype, so a result buffer that inherits
     an integer dtype from the inputs is invisible to them"""
     bad = []
-    triples = [(0, 3, 4), (0, 2, 7), (1, 3, 4), (8, 4, 2), (-5, 1, 4), (10, 4, 1)]
+    triples = [(0, 3, 4), (0, 2, 7), (1, 3, 4), (8, 4, 2), (-5, 1, 4), (10, 4, 1), (1, 1, 2), (3, 1, 1), (2, 2, 2), (0, 0, 0), (0, 0, 5)]
     for t in triples:
         variants = [('int', t), ('mixed', (float(t[0]), float(t[1]), t[2])), ('mixed2', (t[0], float(t[1]), float(t[2]))),
                     ('int-array', tuple(np.array([v, v + 1]) for v in t)), ('int64-0d', tuple(np.int64(v) for v in t))]
